@@ -36,16 +36,20 @@ CHECK_DEADLOCK FALSE
 """ % (fmt_set(trunc_sig), fmt_set(trunc_pk), fmt_set(bits_sig), fmt_set(bits_pk))
     res = ctx.tlc("BlsVerifyGen", cfg_text=cfg, timeout=900)
     cases = [json.loads(raw.strip()[1:-1].replace('\\"', '"')) for raw in ctx.tlc_lines(res, "CASE")]
-    if not cases:
+    mc = ctx.tlc_lines(res, "MSGCASES")
+    if not cases or not mc:
         raise Inconclusive("TLC generated no cases")
-    return res, cases
+    msgcases = json.loads(mc[0].strip()[1:-1].replace('\\"', '"'))
+    return res, cases, msgcases
 
 
 def run(ctx):
     quick = ctx.quick()
     # 1. design level: uniqueness in the generic group model for the whole class lattice, pairing laws
     ref = ctx.tlc("BlsVerify", cfg="BlsVerify.cfg", coverage=not quick)
-    gen, cases = gen_cases(ctx, quick)
+    gen, cases, msgcases = gen_cases(ctx, quick)
+    msp = os.path.join(ctx.scratch, "msgcases.json")
+    json.dump(msgcases, open(msp, "w"))
     drv = ctx.build("c14")
     shards = 8 if quick else 16
     # every shard (own keys and messages) runs the whole lattice; the bit-flip sweep is divided among the shards
@@ -60,7 +64,9 @@ def run(ctx):
         json.dump(core + (flips if quick else flips[k::shards]), open(sp, "w"))
         # + honest sign/verify of many fresh messages (the message enters through the hash to the curve)
         argv = [drv, "--script", sp, "--out", tp, "--salt", str(k), "--worlds", str(worlds),
-                "--sweep", str(250 if quick else 1500)]
+                "--sweep", str(250 if quick else 1500),
+                # related message pairs: every process meets each pair in one order only (even shards: m1 first)
+                "--msgscript", msp, "--msgorder", "fwd" if k % 2 == 0 else "rev", "--others", str(1300 if quick else 2500)]
         if k == 0:
             argv += ["--extras", "--bigpairs", str(4 if quick else 12)]
         argvs.append(argv)
@@ -73,7 +79,7 @@ def run(ctx):
             raise Inconclusive("driver printed no summary")
         for key, v in re.findall(r"(\w+)=(\d+)", line[-1]):
             counts[key] = counts.get(key, 0) + int(v)
-    for need in ("verify", "g1parse", "roundtrip", "pair", "pairbig", "gteq"):
+    for need in ("verify", "g1parse", "roundtrip", "pair", "pairbig", "gteq", "msgpair", "history"):
         if counts.get(need, 0) == 0:
             raise Inconclusive("vacuity: no %s events were produced" % need)
     total, accepted, classes = 0, 0, set()
@@ -110,6 +116,9 @@ def run(ctx):
         "case_classes": len(classes),
         "accepted_by_real_code": accepted,
         "not_applicable_instantiations": counts.get("notApplicable", 0),
+        "related_message_pairs": len(msgcases) // 2,
+        "related_message_cross_tables": counts["msgpair"],
+        "history_independence_observations": counts["history"],
         "round_trips": counts["roundtrip"],
         "pairings_small": counts["pair"],
         "pairings_255bit": counts["pairbig"],
